@@ -142,7 +142,15 @@ def pair(draw, flavours=("cert", "cert", "cert", "srp", "srp_cert", "anon",
                                                        "sha384"])),
                        "same_secret": draw(st.sampled_from([True, True,
                                                             False])),
-                       "same_id": draw(st.sampled_from([True, True, False]))}
+                       "same_id": draw(st.sampled_from([True, True, False])),
+                       "c_modes": draw(st.sampled_from(
+                           [["psk_dhe_ke"], ["psk_ke"],
+                            ["psk_ke", "psk_dhe_ke"],
+                            ["psk_dhe_ke", "psk_ke"]])),
+                       "s_modes": draw(st.sampled_from(
+                           [["psk_dhe_ke"], ["psk_ke"],
+                            ["psk_ke", "psk_dhe_ke"],
+                            ["psk_dhe_ke", "psk_ke"]]))}
     if flavour == "cert":
         case["ccred"] = draw(st.sampled_from(CLIENT_CREDS))
         case["reqCert"] = draw(st.booleans())
@@ -224,6 +232,8 @@ def build_opts(case):
         server["cred"] = case["cred"]
         ss.pskConfigs = [(bytearray(b"psk-id-1"), bytearray(b"\x07" * 32),
                           k["hash"])]
+        cs.psk_modes = list(k.get("c_modes", ["psk_dhe_ke", "psk_ke"]))
+        ss.psk_modes = list(k.get("s_modes", ["psk_dhe_ke", "psk_ke"]))
         cs.pskConfigs = [(bytearray(b"psk-id-1" if k["same_id"]
                                     else b"psk-id-2"),
                           bytearray(b"\x07" * 32 if k["same_secret"]
